@@ -2897,6 +2897,8 @@ class Stream(AbstractStream):
         new._imol.data *= -1
         return new
     
+    __array_ufunc__ = None # NumPy scalars defer to __rmul__ instead of broadcasting over the stream
+    
     def __mul__(self, other):
         new = self.copy()
         new._imol.data *= other
